@@ -4,6 +4,8 @@ Engine B: all graphs n<=5 (6 thorough) x all k, all digraphs n<=4 x all k,
 weighted 4-node graphs x s grid; oracle = union of all node subsets that satisfy
 the bound internally (subset enumeration) + independent synchronous peeling.
 """
+from fractions import Fraction
+
 import numpy as np
 
 import bct
@@ -13,7 +15,7 @@ from bctmc.tally import Tally
 
 PROPERTY = 'C15'
 RULE = ('all undirected graphs n<=5 (quick) / n<=6 (thorough) x k=0..n; all digraphs n<=4 x k=0..2n-1 '
-        '(n<=3 and 4-node digraphs in quick); symmetric weights {1,2,3} and {0.5,1,1.5} on 4 nodes x s on a 0.25 '
+        '(n<=3 and 4-node digraphs in quick); symmetric weights {1,2,3}, {0.5,1,1.5} and the non-dyadic {0.3,0.6} on 4 nodes x s on a 0.25 '
         'grid up to max strength+0.25; coreness on every graph; non-trivial = (graph,k) whose peeling needs >= 2 '
         'rounds (removing one node drags others below the bound)')
 ASSUMPTIONS = ['float64 0/1 (or listed weight) matrices with empty diagonal',
@@ -30,7 +32,7 @@ def plan(ctx):
         tot = ss.dir_count(n, (0, 1))
         for (a, b) in ss.ranges(tot, 64 if n >= 4 else 1):
             units.append(('dir', n, (0, 1), a, b))
-    for alpha in ((0, 1, 2, 3), (0, 0.5, 1, 1.5)):
+    for alpha in ((0, 1, 2, 3), (0, 0.5, 1, 1.5), (0, 0.3, 0.6)):
         tot = ss.und_count(4, alpha)
         for (a, b) in ss.ranges(tot, 64):
             units.append(('wu', 4, alpha, a, b))
@@ -50,7 +52,8 @@ def inner_measure(kind, A, S):
     elif kind == 'dir':
         d = (sub != 0).sum(axis=1) + (sub != 0).sum(axis=0)
     else:
-        d = sub.sum(axis=1)
+        # exact rational strengths of the float weights (decimal weights such as 0.3 are not dyadic)
+        d = [sum((Fraction(float(x)) for x in row), Fraction(0)) for row in sub]
     return dict(zip(idx, d))
 
 
@@ -99,6 +102,12 @@ def levels(kind, A):
     if kind == 'dir':
         return list(range(0, 2 * n))
     smax = float(A.sum(axis=1).max()) if n else 0.0
+    vals = sorted(set(np.round(A[A != 0], 12).tolist()))
+    if vals and any(abs(v * 4 - round(v * 4)) > 1e-9 for v in vals):
+        # non-dyadic weights: thresholds at the individual weight values (exact ties with a single remaining
+        # connection) and strictly between attainable strengths
+        grid = set(vals) | {v / 2.0 for v in vals} | {vals[0] + vals[-1] - 0.05, 2 * vals[-1] + 0.05}
+        return sorted(grid)
     return [x * 0.25 for x in range(0, int(smax * 4) + 2)]
 
 
